@@ -37,6 +37,7 @@ EXPLANATION += (' R-C18-6: no load or cycle quantity is compared with a non-zero
 EXPLANATION += (' R-C18-2 also requires the reported transition to be the midpoint of the lowest finite-zone load and the highest run-out load. R-C18-4 (applied to the load unit and, likewise, to the cycle unit: cycles, ND): values that carry the unit of the load (load column, finite/infinite transition, SD, ...; interprocedural typing) meet numeric constants only as comparisons with zero - a non-zero threshold or clamp makes the result depend on the load unit. R-C18-5: no analysis function writes into a caller-provided argument and no mutable default argument is ever written (effect analysis through closures).')
 EXPLANATION += (" R-C18-4 also treats rounding of a load- or cycle-typed value to a fixed number of digits or to whole numbers (round, np.round, floor, astype(int)) as a comparison with a fixed grid. R-C18-2 inlines the locals of the zone split and reports a zone selected by index labels (index.isin, drop, difference) instead of by the load of each test.")
 EXPLANATION += (' R-C18-8: every stats.linregress call of the analysis modules is preceded by a test of the spread of its regressor (np.ptp, unique / nunique, max together with min) in the same function or in every entry point that reaches it: exact Basquin data have zero spread after the pearl-chain shift and a regression over coinciding abscissae is 0/0.')
+EXPLANATION += (' R-C18-9: no function of the analysis modules writes a private attribute of an object other than self (zones and transition are derived by each fatigue data object from its own rows); zero instances expected, built-in example.')
 ASSUMPTIONS = [
     "scipy.stats.linregress and sums are invariant under a common permutation of their paired arguments",
     "pandas groupby sorts group keys by default; np.unique and the 1-D set operations return sorted arrays",
@@ -54,6 +55,7 @@ def run(ctx):
     ctx.attempt(_r6)
     ctx.attempt(_r7)
     ctx.attempt(_r8)
+    ctx.attempt(_r9)
 
 
 SPREAD_FUNCS = ("np.ptp", "np.unique", "np.var", "np.std")
@@ -97,6 +99,50 @@ def unguarded_regressions(fn_node):
         if not ok:
             out.append((c, x))
     return out
+
+
+def foreign_state_writes(fn_node):
+    """stores into private attributes of an object other than self:  other._zone = ..., other._x[...] = ..."""
+    out = []
+    for st in ast.walk(fn_node):
+        tg = st.targets if isinstance(st, ast.Assign) else [st.target] if isinstance(st, (ast.AugAssign, ast.AnnAssign)) else []
+        for t in tg:
+            for el in (t.elts if isinstance(t, (ast.Tuple, ast.List)) else [t]):
+                base = el
+                while isinstance(base, ast.Subscript):
+                    base = base.value
+                if isinstance(base, ast.Attribute) and base.attr.startswith("_") and not base.attr.startswith("__") and \
+                        isinstance(base.value, ast.Name) and base.value.id not in ("self", "cls"):
+                    out.append((st, base.value.id, base.attr))
+    return out
+
+
+def _r9(ctx):
+    """R-C18-9: the zones and the transition of a FatigueData object are derived from the object's own rows (lazily, on first
+    use).  Nothing writes these private attributes of ANOTHER object: a reduced copy that is handed the zones of the object it was
+    cut from still contains the dropped rows in its infinite zone, and whether that happens depends on whether the original was
+    looked at before - the analysis is then neither permutation invariant nor equivariant."""
+    prog = ctx.prog
+    ctx.rule("R-C18-9", floor=1, what="derived private state (zones, transition) of a fatigue data object is never written from outside the object")
+    ex = ast.parse("def f(self, df):\n    r = FatigueData(df)\n    r._infinite_zone = self._infinite_zone\n    self._x = 1\n    return r\n").body[0]
+    if [(o, a) for _, o, a in foreign_state_writes(ex)] != [("r", "_infinite_zone")]:
+        raise AnalysisError("R-C18-9 built-in example not matched")
+    n = 0
+    m = 0
+    for key, fi in sorted(prog.functions.items()):
+        if fi.module.name not in MODS or fi.parent is not None:
+            continue
+        n += 1
+        for st, obj, attr in foreign_state_writes(fi.node):
+            m += 1
+            ctx.violated(fi, st, "%s writes the private attribute %s of another object (%s): derived state (zones, transition) is "
+                         "computed by each object from its own rows; copied onto a reduced copy it still describes the rows that "
+                         "were dropped, and only if the original had been evaluated before" % (fi.name, attr, norm_text(st)[:60]),
+                         text="foreign state %s.%s in %s" % (obj, attr, fi.name))
+    if n < 10:
+        raise AnalysisError("fewer than 10 analysis functions scanned")
+    if not m:
+        ctx.holds(PKG.rstrip("."), None, "%d functions: no private attribute of another object is written" % n)
 
 
 def _r8(ctx):
